@@ -14,6 +14,9 @@
 (*   Write(n, v)  ANY write of any value to the file of node n             *)
 (*   Call         an updater call that wrote nothing                       *)
 (*   Done         the rewrite is declared complete                         *)
+(*   External(a)  BETWEEN rewrites something else (kubelet, an operator,   *)
+(*                an interrupted earlier run of the agent) left the files  *)
+(*                at another hierarchy-valid assignment a                  *)
 (*  (V) after EVERY single write the hierarchy is valid (every prefix of   *)
 (*      the write sequence is a possible crash point):                     *)
 (*        cpuset : val[child] \subseteq val[parent]                        *)
@@ -44,6 +47,16 @@
 (*     TRUE  each cgroup's OWN current cpuset \cup new (satisfies N)        *)
 (*     FALSE the BE root's old cpuset \cup new, the same for every cgroup   *)
 (*           (transcription of cpu_suppress.go as found)                   *)
+(*                                                                         *)
+(* PART 2c (design level - cpusuppress.recoverCPUSetIfNeed /               *)
+(* recoverCPUSetForBECPUManager, the path taken when the cpuset policy is  *)
+(* left): ONE cpuset, the node's whole BE pool, for every BE cgroup,       *)
+(* written in a SINGLE top-down pass through the cacheable UpdateBatch.    *)
+(* That is a valid order exactly when the value covers what every cgroup   *)
+(* holds (pure widening), which is the start condition modelled here.      *)
+(* Between rewrites IExternal replaces the file contents; the cache entry  *)
+(* of a file changed behind the executor is gone (expired, or the agent    *)
+(* restarted) - see the assumptions in lib/props/C12.py.                   *)
 (***************************************************************************)
 EXTENDS Integers, Sequences, FiniteSets, SequencesExt
 
@@ -104,12 +117,21 @@ Done ==
   /\ phase' = "idle"
   /\ UNCHANGED <<par, kind, val, old, target, written>>
 
+\* between rewrites: the environment leaves another hierarchy-valid assignment in the files
+External(a) ==
+  /\ phase = "idle"
+  /\ DOMAIN a = Nodes
+  /\ HierValid(par, kind, a)
+  /\ val' = a
+  /\ UNCHANGED <<par, kind, old, target, written, phase>>
+
 \* every step of a conforming implementation is one of these (used as an action property on PART 2)
 PropStep ==
   \/ Begin(target')
   \/ \E n \in Nodes : Write(n, val'[n])
   \/ Call
   \/ Done
+  \/ External(val')
 
 ----------------------------------------------------------------------------
 (* PART 2 : design level (LeveledUpdateBatch) *)
@@ -117,9 +139,9 @@ PropStep ==
 VARIABLES
   cache,    \* node -> [has, v] : has = FALSE: nothing remembered (never written, or expired); else v = the value the
             \*         executor believes the file holds (ResourceCache, keyed by file path)
-  pc,       \* <<"idle">> | <<"merge", i>> | <<"exact", i>> | <<"widen", i>> | <<"narrow", i>> | <<"end">>
+  pc,       \* <<"idle">> | <<"merge", i>> | <<"exact", i>> | <<"widen", i>> | <<"narrow", i>> | <<"cover", i>> | <<"end">>
   rewrites, \* number of rewrites begun so far
-  algo      \* "leveled" (PART 2) | "suppress" (PART 2b)
+  algo      \* "leveled" (PART 2) | "suppress" (PART 2b) | "recover" (PART 2c)
 ivars == <<cache, pc, rewrites, algo>>
 vars  == <<pvars, ivars>>
 
@@ -156,15 +178,19 @@ ExactStep(n) ==
           THEN val' = [val EXCEPT ![n] = target[n]] /\ written' = written \cup {n}
           ELSE UNCHANGED <<val, written>>
 
-IBegin(t, expired) ==
+\* a = the mechanism of THIS rewrite: the BE cgroups are rewritten by "suppress" and "recover" rounds in turn (same executor, same
+\* cache), a leveled subtree only by "leveled" ones
+IBegin(t, expired, a) ==
   /\ pc = <<"idle">>
   /\ rewrites < MaxRewrites
-  /\ algo = "suppress" => kind = "cpuset" /\ t[1] # {} /\ \A n \in Nodes : t[n] = t[1]     \* one non-empty cpuset for all
+  /\ IF algo = "leveled" THEN a = "leveled" ELSE a \in {"suppress", "recover"}
+  /\ a \in {"suppress", "recover"} => kind = "cpuset" /\ t[1] # {} /\ \A n \in Nodes : t[n] = t[1]   \* one non-empty cpuset for all
+  /\ a = "recover" => \A n \in Nodes : val[n] \subseteq t[n]                            \* the BE pool covers what the cgroups hold
   /\ Begin(t)
   /\ cache' = [n \in Nodes |-> IF n \in expired THEN NoEnt(kind) ELSE cache[n]]
-  /\ pc' = IF algo = "leveled" THEN <<"merge", 1>> ELSE <<"widen", 1>>
+  /\ pc' = CASE a = "leveled" -> <<"merge", 1>> [] a = "suppress" -> <<"widen", 1>> [] OTHER -> <<"cover", 1>>
   /\ rewrites' = rewrites + 1
-  /\ UNCHANGED algo
+  /\ algo' = a
 
 IMerge ==
   /\ pc[1] = "merge"
@@ -213,6 +239,20 @@ SNarrow ==
   /\ LET n == Reverse(PreOrder(par, 1))[pc[2]] IN ByCache(n, target[n])
   /\ pc' = IF pc[2] < Len(par) THEN <<"narrow", pc[2] + 1>> ELSE <<"end">>
   /\ UNCHANGED <<par, kind, old, target, phase, rewrites, algo>>
+
+(* PART 2c : recoverCPUSetIfNeed - the pool cpuset for every BE cgroup, one top-down pass *)
+SCover ==
+  /\ pc[1] = "cover"
+  /\ LET n == PreOrder(par, 1)[pc[2]] IN ByCache(n, target[n])
+  /\ pc' = IF pc[2] < Len(par) THEN <<"cover", pc[2] + 1>> ELSE <<"end">>
+  /\ UNCHANGED <<par, kind, old, target, phase, rewrites, algo>>
+
+\* between rewrites the files are replaced; the entries of the files that changed behind the executor are gone
+IExternal(a) ==
+  /\ pc = <<"idle">>
+  /\ External(a)
+  /\ cache' = [n \in Nodes |-> IF a[n] # val[n] THEN NoEnt(kind) ELSE cache[n]]
+  /\ UNCHANGED <<pc, rewrites, algo>>
 
 \* what MC establishes about the design
 TNAtEnd        == pc = <<"end">> => T /\ N
